@@ -97,7 +97,12 @@ def gen_label_array(rng: random.Random):
     arr = np.zeros((nframes, *shape), dtype=rng.choice([np.int32, np.int64, np.uint16]))
     pattern = ""
     pool = rng.choice([[1, 2, 3], [1, 2, 3, 4, 5, 6], [5, 17, 300], [1, 1000, 60000]])
-    tiny = rng.random() < 0.15
+    big64 = False
+    if arr.dtype == np.int64 and rng.random() < 0.1:
+        # 64-bit labels beyond 2**53 (not representable as doubles)
+        pool = [1, 2, 2**53 + 1, 2**53 + 3]
+        big64 = True
+    tiny = rng.random() < 0.15 and not big64
     if tiny:
         # tiny frames that labels can cover completely (a frame without any background),
         # with the same label values used again in other frames
@@ -195,6 +200,40 @@ def relabel_problems(times, seg_ids, edges, seg, out) -> list[str]:
     if (out[~covered] != 0).any():
         probs.append("pixels outside the solution are not 0")
     return probs
+
+
+def check_relabel_many(rng, acc):
+    """A solution with 255, 256 or 257 one-node tracks: every detection keeps a non-zero
+    label of its own."""
+    import networkx as nx
+
+    from funtracks.utils import relabel_segmentation_with_track_id
+
+    n = rng.choice([255, 256, 257, 258])
+    seg = np.zeros((2, 20, 20), dtype=rng.choice([np.int32, np.int64, np.uint16]))
+    g = nx.DiGraph()
+    k = 0
+    for t in range(2):
+        for y in range(20):
+            for x in range(20):
+                if k < n and (y + x + t) % 3 != 2:
+                    k += 1
+                    seg[t, y, x] = k
+                    g.add_node(k, time=t, seg_id=k)
+    src = seg.copy()
+    with warnings.catch_warnings():
+        warnings.simplefilter("ignore")
+        out = np.asarray(relabel_segmentation_with_track_id(g, seg))
+    acc["evaluations"] += 1
+    acc["counters"]["relabel-many-segments"] = acc["counters"].get("relabel-many-segments", 0) + 1
+    labs = out[src != 0]
+    if (labs == 0).any() or len(set(int(v) for v in labs)) != k or (out[src == 0] != 0).any():
+        acc["violations"].append({
+            "clause": "relabel-by-track",
+            "what": f"{k} one-node tracks: {int((labs == 0).sum())} detections lost their "
+                    f"label, {len(set(int(v) for v in labs))} distinct labels",
+            "key": "C19/relabel/many-segments",
+            "replay": {"fn": "relabel-many", "n": n}})
 
 
 def check_relabel(rng, acc):
@@ -308,6 +347,8 @@ def run_shard(spec):
     acc = common.new_acc()
     STATS["post"] = 0
     for i in range(spec["n"]):
+        if i % 2000 == 7:
+            check_relabel_many(rng, acc)
         if i % 2:
             check_unique(rng, acc)
         else:
@@ -328,6 +369,10 @@ def floors(tier):
 
 def replay(doc):
     acc = common.new_acc()
+    if doc["fn"] == "relabel-many":
+        for _ in range(8):
+            check_relabel_many(random.Random(doc["n"]), acc)
+        return acc["violations"][:1]
     if doc["fn"] == "unique":
         arr = np.array(doc["array"], dtype=doc["dtype"])
         f = contracted_unique()
